@@ -449,6 +449,35 @@ def rule_R2(ctx, M):
                   'and 1 otherwise', ctx.where(sm, n),
                   sample={'stmt': au.stext(n), 'table': {k or "''": v for k, v
                                                           in res.items()}})
+    # -- reference norm: ||source|| (nan only in the zero-source arm) ----------------
+    from ..core.template import find as _find, has as _has
+    sps = au.params(fn)
+    refs = [n for n in ast.walk(fn) if isinstance(n, ast.Assign) and any(
+        ast.unparse(t) == f'{var}.l2_refe' for t in n.targets)]
+    for n in refs:
+        if _has(f'{var}.l2_refe = sp.linalg.norm({sps[1]}.field, '
+                'check_finite=False)', n) or _has(
+                f'{var}.l2_refe = sp.linalg.norm({sps[1]}.field)', n):
+            okr = True
+        elif ast.unparse(n.value) == 'np.nan':
+            okr = any(zero_guard(t) and p for t, p in au.guards_of(n, fn))
+        else:
+            okr = False
+        ctx.check('C01.R2.reference', f'solve `{au.stext(n)}`', okr,
+                  'the reference norm of the tolerance test is not the norm '
+                  'of the source field', ctx.where(sm, n),
+                  sample={'stmt': au.stext(n)})
+    ctx.need(len(refs) >= 1, 'no definition of the reference norm in solve()')
+    other = [n for n in ast.walk(sm.tree) if isinstance(n, (ast.Assign,
+                                                            ast.AugAssign))
+             and any(isinstance(t, ast.Attribute) and t.attr == 'l2_refe'
+                     for t in (n.targets if isinstance(n, ast.Assign)
+                               else [n.target]))
+             and au.qualname(n) not in ('solve', 'MGParameters.__post_init__')]
+    ctx.check('C01.R2.reference', 'reference norm written only by solve()',
+              not other, 'the reference norm is modified during the '
+              f'iteration: {[au.qualname(n) for n in other]}',
+              ctx.where(sm, fn))
     # -- info dict -------------------------------------------------------------------
     dicts = [n for n in ast.walk(fn) if isinstance(n, ast.Dict) and any(
         isinstance(k, ast.Constant) and k.value == 'exit' for k in n.keys)]
